@@ -154,8 +154,25 @@ def handleGen (vectors ctx ir : String) : String :=
         | _ => "bad-request: gen"
   | _, _, _ => "bad-request"
 
+/-- do the hypotheses of `gen_sem_stmts` / `gen_sem_program` hold for every function of the request?  (statistics only) -/
+def handleWt (ctx ir : String) : String :=
+  let items := parseAll ir
+  if items.any (Sx.hasHead "unsupported") || items.any (Sx.hasHead "intr") then "unsupported" else
+  match parseCtx? ctx, sequenceOpt (items.map parseFunc?) with
+  | some inf, some prog =>
+    let cx := inf.ctx prog
+    let S : Ir.Side :=
+      { sig := Ir.sigOf prog, vty := cx.vty, vis := fun _ => true, req := cx.req,
+        rsv := fun f => match prog.find? (·.id == f) with
+          | some fn => outSlot f :: fn.params.map (fun p => Var.loc p.1)
+          | none => [],
+        called := cx.called }
+    if prog.all fun fn => Ir.wtStmtsM S fn.ret none fn.body && fn.params.all fun p => decide (cx.vty (.loc p.1) = p.2.2) then "wt" else "not-wt"
+  | _, _ => "unsupported"
+
 def handle (op : String) (args : List String) : String :=
   match op, args with
+  | "C02.wt", [_src, _name, _vectors, ctx, ir] => handleWt ctx ir
   | "C02.gen", [_src, name, vectors, ctx, ir] => if name == "-" then "skip" else handleGen vectors ctx ir
   | "C02.gen", _ => "skip"
   | _, _ => "unsupported-op"
